@@ -689,7 +689,7 @@ def gen_vr(self, g):
             return None
         a["prefix"] = enc_point(pre)
         if g.random() < 0.4:
-            a["scalar"] = g.choice([2, 3])
+            a["scalar"] = g.choice([2, 3, 1, 1, 0, -1])   # (the identity and the annihilator are values like any other)
         else:
             o = g.choice(srcs)
             osl = self.slots[o]
